@@ -202,6 +202,11 @@ class Interp:
         if i == "member":
             o, off = self.place(e["sub"][0])
             return FieldObj(o, off, nsub(e, "component_name")["id"]), 0
+        if i == "string_constant":
+            val = nsub(e, "value")["id"]
+            cache = self.__dict__.setdefault("_strings", {})
+            if val not in cache: cache[val] = self.array("string_constant", [ord(ch) for ch in val] + [0])
+            return cache[val], 0
         raise ExecError("unsupported lvalue " + i)
     def load(self, o, off, t):
         n = self.cells(t)
